@@ -872,3 +872,227 @@ func absentFact(b *ssa.BasicBlock, faces *types.Var) bool {
 	}
 	return false
 }
+
+// ---------------------------------------------------------------------------
+// MI.INPLACE — a vertex of a triangle/segment that is a member of a mesh is
+// rewritten in place only by a function that (i) resets the vertex index
+// afterwards, or (ii) brackets the rewrite between m.Remove(t) and m.Add(t) of
+// the same face. (The index is keyed by vertex coordinates: an in-place
+// rewrite leaves it pointing at the old coordinates.)
+
+func faceElemType(t types.Type) bool {
+	p, ok := t.(*types.Pointer)
+	if !ok {
+		return false
+	}
+	n, ok := p.Elem().(*types.Named)
+	if !ok || n.Obj().Pkg() == nil || !strings.HasPrefix(n.Obj().Pkg().Path(), repoMod+"/model") {
+		return false
+	}
+	return n.Obj().Name() == "Triangle" || n.Obj().Name() == "Segment"
+}
+
+// meshMember: v is a face pointer that came out of a mesh.
+func meshMember(v ssa.Value, depth int) bool {
+	if depth > 8 {
+		return false
+	}
+	switch x := v.(type) {
+	case *ssa.Parameter:
+		// parameter of a function literal handed to a Mesh iteration method
+		fn := x.Parent()
+		if fn.Parent() == nil {
+			return false
+		}
+		for _, b := range fn.Parent().Blocks {
+			for _, ins := range b.Instrs {
+				call, ok := ins.(*ssa.Call)
+				if !ok {
+					continue
+				}
+				callee := call.Call.StaticCallee()
+				if callee == nil || callee.Signature.Recv() == nil || !strings.HasSuffix(callee.Signature.Recv().Type().String(), ".Mesh") {
+					continue
+				}
+				if !strings.HasPrefix(callee.Name(), "Iterate") {
+					continue
+				}
+				for _, a := range call.Call.Args {
+					if mc, ok := a.(*ssa.MakeClosure); ok && mc.Fn == ssa.Value(fn) {
+						return true
+					}
+				}
+			}
+		}
+	case *ssa.UnOp:
+		if x.Op == token.MUL {
+			if ia, ok := x.X.(*ssa.IndexAddr); ok {
+				return meshFaceList(ia.X, depth+1)
+			}
+		}
+	case *ssa.Extract:
+		if nx, ok := x.Tuple.(*ssa.Next); ok {
+			if rng, ok := nx.Iter.(*ssa.Range); ok {
+				// range over m.faces (keys)
+				if u, ok := rng.X.(*ssa.UnOp); ok {
+					if fa, ok := u.X.(*ssa.FieldAddr); ok && fieldOf(fa) != nil && fieldOf(fa).Name() == "faces" {
+						return true
+					}
+				}
+			}
+		}
+	case *ssa.Phi:
+		for _, e := range x.Edges {
+			if meshMember(e, depth+1) {
+				return true
+			}
+		}
+	}
+	return false
+}
+
+// meshFaceList: a slice of face pointers obtained from a mesh or its index.
+func meshFaceList(v ssa.Value, depth int) bool {
+	if depth > 8 {
+		return false
+	}
+	switch x := v.(type) {
+	case *ssa.Call:
+		callee := x.Call.StaticCallee()
+		if callee == nil || callee.Signature.Recv() == nil {
+			return false
+		}
+		rt := callee.Signature.Recv().Type().String()
+		n := callee.Name()
+		if i := strings.Index(n, "["); i >= 0 {
+			n = n[:i]
+		}
+		if strings.HasSuffix(rt, ".Mesh") && (n == "Find" || n == "TriangleSlice" || n == "SegmentSlice" || n == "Neighbors") {
+			return true
+		}
+		if strings.Contains(rt, "ToSlice") && (n == "Value" || n == "Load") && len(x.Call.Args) > 0 && derivesFromIndex(x.Call.Args[0], 0) {
+			return true
+		}
+	case *ssa.Extract:
+		return meshFaceList(x.Tuple, depth+1)
+	case *ssa.Phi:
+		for _, e := range x.Edges {
+			if meshFaceList(e, depth+1) {
+				return true
+			}
+		}
+	}
+	return false
+}
+
+func (c *Ctx) runInPlace(rule string, pkgShort string, p *packages.Package) {
+	if p == nil {
+		p = c.pkg(pkgShort)
+	}
+	if p == nil {
+		return
+	}
+	v2f := c.mustField(pkgShort, "Mesh.vertexToFace")
+	for _, fn := range c.srcFuncs(p) {
+		n := 0
+		for _, b := range fn.Blocks {
+			for _, ins := range b.Instrs {
+				st, ok := ins.(*ssa.Store)
+				if !ok {
+					continue
+				}
+				addr := st.Addr
+				for {
+					fa, ok := addr.(*ssa.FieldAddr)
+					if !ok {
+						break
+					}
+					addr = fa.X // t[i].Z = ...
+				}
+				ia, ok := addr.(*ssa.IndexAddr)
+				if !ok || !faceElemType(ia.X.Type()) || !meshMember(ia.X, 0) {
+					continue
+				}
+				n++
+				c.analysed(qname(fn))
+				top := fn
+				for top.Parent() != nil {
+					top = top.Parent()
+				}
+				key := fmt.Sprintf("%s rewrites a vertex of a member face#%d", qname(fn), n)
+				// (ii) bracket: Remove(face) dominates the store and Add(face) follows
+				removed, added := false, false
+				for _, b2 := range fn.Blocks {
+					for _, i2 := range b2.Instrs {
+						call, ok := i2.(*ssa.Call)
+						if !ok {
+							continue
+						}
+						for _, a := range call.Call.Args {
+							if a != ia.X {
+								continue
+							}
+							if callsNamed(call, "Remove") && instrDominates(call, st) {
+								removed = true
+							}
+							if callsNamed(call, "Add") && (reaches(st.Block(), b2) || st.Block() == b2) {
+								added = true
+							}
+						}
+					}
+				}
+				// (i) reset of the index after the store in the top-level function
+				reset := false
+				var visit func(f *ssa.Function)
+				visit = func(f *ssa.Function) {
+					for _, b2 := range f.Blocks {
+						for _, i2 := range b2.Instrs {
+							switch x := i2.(type) {
+							case *ssa.Store:
+								if fa, ok := x.Addr.(*ssa.FieldAddr); ok && fieldOf(fa) == v2f {
+									if f != fn || reaches(st.Block(), b2) || st.Block() == b2 {
+										reset = true
+									}
+								}
+							case *ssa.Call:
+								if callsNamed(x, "clearVertexToFace") && (f != fn || reaches(st.Block(), b2) || st.Block() == b2) {
+									reset = true
+								}
+							}
+						}
+					}
+				}
+				visit(top)
+				// (iii) manual patch: the same function stores the new key into
+				// the index and deletes the old one
+				stored, deleted := false, false
+				for _, f := range append([]*ssa.Function{fn}, fn.AnonFuncs...) {
+					for _, b2 := range f.Blocks {
+						for _, i2 := range b2.Instrs {
+							call, ok := i2.(*ssa.Call)
+							if !ok || len(call.Call.Args) == 0 || !derivesFromIndex(call.Call.Args[0], 0) {
+								continue
+							}
+							if callsNamed(call, "Store") {
+								stored = true
+							}
+							if callsNamed(call, "Delete") {
+								deleted = true
+							}
+						}
+					}
+				}
+				switch {
+				case stored && deleted:
+					c.ok(rule, key, st.Pos(), "the function patches the vertex index itself: Store of the new key and Delete of the old key on the index map")
+				case removed && added:
+					c.ok(rule, key, st.Pos(), "bracketed by Remove(face) before and Add(face) after the rewrite")
+				case reset:
+					c.ok(rule, key, st.Pos(), "the vertex index is reset after the rewrite in the same function")
+				default:
+					c.bad(rule, key, st.Pos(), "a vertex of a face that is in a mesh is rewritten in place, but the function neither resets the vertex index afterwards, nor brackets the rewrite with Remove/Add, nor patches the index (Store new key + Delete old key): vertex and edge queries keep answering for the old coordinates")
+				}
+			}
+		}
+	}
+}
